@@ -17,20 +17,31 @@ N == Len(Events)
 VARIABLES tpos, tst, tlast
 St0 == [acc |-> <<>>, cnt |-> [j \in 1..256 |-> 0], m |-> 0]
 Verdict(e, ok, class, kind) == <<e.id, IF ok THEN "ok" ELSE "dev", e.prop, class, IF ok THEN "-" ELSE kind>>
+S9 == INSTANCE SM9                                  \* the SM9 specification (namespaced: it has its own N, P, G ...)
 OrderOf(e) == IF e.lib = "sm2" THEN NN ELSE SM9N
 InRange(c, ord) == c # BZero /\ BLt(c, ord)
 Accepted(e) == SelectSeq(e.draws, LAMBDA dr : dr.a = 1)
 \* structure: the last draw is the accepted one and no earlier one is
-OneAccept(e) == Len(e.draws) >= 1 /\ e.draws[Len(e.draws)].a = 1 /\ \A j \in 1..(Len(e.draws) - 1) : e.draws[j].a = 0
+\* (an operation flagged e.retry = 1 is one whose FIRST accepted scalar the standard discards -- K1 all zero -- and which must therefore draw
+\*  afresh: it has exactly two accepted draws, the last draw being the second of them)
+NAccepted(e) == Len(SelectSeq(e.draws, LAMBDA dr : dr.a = 1))
+IsRetry(e) == "retry" \in DOMAIN e /\ e.retry = 1
+OneAccept(e) == IF IsRetry(e) THEN Len(e.draws) >= 2 /\ e.draws[Len(e.draws)].a = 1 /\ NAccepted(e) = 2
+                ELSE Len(e.draws) >= 1 /\ e.draws[Len(e.draws)].a = 1 /\ \A j \in 1..(Len(e.draws) - 1) : e.draws[j].a = 0
 AllAcceptedInRange(e) == \A j \in 1..Len(e.draws) : e.draws[j].a = 1 => InRange(BFromBE(e.draws[j].c), OrderOf(e))
 \* the scalar the operation used = the accepted draw
 UsedOK(e, k) == IF e.chk = "sig" THEN NonceOf(BFromBE(e.d), BFromBE(SubSeq(e.sig, 1, 32)), BFromBE(SubSeq(e.sig, 33, 64))) = k
                 ELSE IF e.chk = "pt" THEN EncodePoint(MulN(k, G), FALSE) = e.pt
+                \* SM9: master public key [k]P1; C1 / R_A / R_B = [k]([H1(ID || hid)]P1 + Ppub-e); signature S = [(k - h) mod N] ds
+                ELSE IF e.chk = "g1pub" THEN e.pt = <<4>> \o S9!PtBytes(S9!G1Mul(S9!B32(k), S9!GenG1))
+                ELSE IF e.chk = "c1" THEN e.pt = <<4>> \o S9!PtBytes(S9!G1Mul(S9!B32(k), S9!QB(S9!PpubE(BFromBE(e.ke)), e.idb, e.hid)))
+                ELSE IF e.chk = "s9sig" THEN LET ds == S9!ExtractSign(BFromBE(e.ks), e.idb) IN
+                                             ds[1] = "ok" /\ e.pt = <<4>> \o S9!PtBytes(S9!G1Mul(S9!B32(BSubMod(k, BFromBE(e.h), SM9N)), ds[2]))
                 ELSE TRUE
 BitOfBytes(c, j) == (c[((j - 1) \div 8) + 1] \div (2^(7 - ((j - 1) % 8)))) % 2
 AddBits(cnt, c) == [j \in 1..256 |-> cnt[j] + BitOfBytes(c, j)]
 OpKind(e, k) == IF e.outcome # "ok" THEN "operation-" \o e.outcome ELSE IF ~OneAccept(e) THEN "draw-structure" ELSE IF ~AllAcceptedInRange(e) THEN "accepted-out-of-range" ELSE "used-differs-from-drawn"
-OpClass(e) == e.lib \o "." \o e.kind \o (IF e.scripted = 1 THEN ".injected" ELSE "")
+OpClass(e) == e.lib \o "." \o e.kind \o (IF IsRetry(e) THEN ".retry" ELSE IF e.scripted = 1 THEN ".injected" ELSE "")
 Op2(e, k) == /\ tlast' = Verdict(e, e.outcome = "ok" /\ OneAccept(e) /\ AllAcceptedInRange(e) /\ UsedOK(e, BFromBE(k)), OpClass(e), OpKind(e, k))
              /\ tst' = IF e.scripted = 1 \/ e.outcome # "ok" \/ ~OneAccept(e) THEN tst
                        ELSE [acc |-> Append(tst.acc, k), cnt |-> TLCEval(AddBits(tst.cnt, k)), m |-> tst.m + 1]
